@@ -21,6 +21,7 @@ CONSTANTS Verts, Labels, Start, MaxLen, MaxCalls
 VARIABLES vs, E,       \* the automaton
           mk,          \* keys <<length, state>> the caller's memo dictionary may hold
           mode,        \* options the memo was filled under ("none" while empty)
+          ver,         \* which matrices the generators currently hold (re-assignment of a generator flips it)
           ncalls, last
 
 Ops == INSTANCE FSAOps WITH MaxMult <- 1, Foreign <- "z"
@@ -29,14 +30,18 @@ Ops == INSTANCE FSAOps WITH MaxMult <- 1, Foreign <- "z"
 (* Exact images                                                            *)
 (***************************************************************************)
 Neg(x) == 0 - x
-GenMat(g) == CASE g = "a" -> <<<<1, 2>>, <<0, 1>>>>
-               [] g = "A" -> <<<<1, Neg(2)>>, <<0, 1>>>>
-               [] g = "b" -> <<<<1, 0>>, <<2, 1>>>>
-               [] g = "B" -> <<<<1, 0>>, <<Neg(2), 1>>>>
+\* version 0: Sanov generators; version 1: generator "b" re-assigned to [[1,0],[3,1]].  The automaton labels
+\* contain the INVERSE letter "B", whose stored matrix must follow the re-assignment of "b"
+GenMatV(v, g) == CASE g = "a" -> <<<<1, 2>>, <<0, 1>>>>
+                   [] g = "A" -> <<<<1, Neg(2)>>, <<0, 1>>>>
+                   [] g = "b" -> IF v = 0 THEN <<<<1, 0>>, <<2, 1>>>> ELSE <<<<1, 0>>, <<3, 1>>>>
+                   [] g = "B" -> IF v = 0 THEN <<<<1, 0>>, <<Neg(2), 1>>>> ELSE <<<<1, 0>>, <<Neg(3), 1>>>>
+GenMat(g) == GenMatV(ver, g)
 Id2 == <<<<1, 0>>, <<0, 1>>>>
 Mul(X, Y) == [i \in 1..2 |-> [j \in 1..2 |-> X[i][1] * Y[1][j] + X[i][2] * Y[2][j]]]
-RECURSIVE Eval(_)
-Eval(w) == IF w = <<>> THEN Id2 ELSE Mul(GenMat(Head(w)), Eval(Tail(w)))   \* left-to-right product
+RECURSIVE EvalV(_, _)
+EvalV(v, w) == IF w = <<>> THEN Id2 ELSE Mul(GenMatV(v, Head(w)), EvalV(v, Tail(w)))   \* left-to-right product
+Eval(w) == EvalV(ver, w)
 
 (***************************************************************************)
 (* Meaning of a call                                                       *)
@@ -88,7 +93,7 @@ Visit(dir, st, L, have) ==
 
 Init == /\ vs \in SUBSET Verts /\ Start \in vs
         /\ E \in {S \in SUBSET (vs \X Labels \X vs) : Ops!Det(S)}
-        /\ mk = {} /\ mode = <<"none", FALSE, FALSE>> /\ ncalls = 0 /\ last = [a |-> "none"]
+        /\ mk = {} /\ mode = <<"none", FALSE, FALSE>> /\ ver = 0 /\ ncalls = 0 /\ last = [a |-> "none"]
 
 ModeOf(dir, mx, ww) == <<dir, mx, ww>>
 
@@ -101,24 +106,33 @@ Call(dir, st, L, mx, ww) ==
      /\ mode' = ModeOf(d, mx, ww)
      /\ mk' = mk \cup Visit(d, s, L, IF dir = "none" THEN mk \ {<<L, s>>} ELSE mk)
      /\ ncalls' = ncalls + 1
-     /\ UNCHANGED <<vs, E>>
+     /\ UNCHANGED <<vs, E, ver>>
      /\ last' = [a |-> "call", dir |-> dir, st |-> s, L |-> L, maxlen |-> mx, with_words |-> ww,
                  words |-> Ref(d, s, L, mx)]
 
-Next == \E dir \in {"none", "start", "end"} : \E st \in vs : \E L \in 0..MaxLen : \E mx, ww \in BOOLEAN :
-          /\ (dir = "none" => st = Start)
-          /\ Call(dir, st, L, mx, ww)
+\* rep["b"] = M: the generator AND its stored inverse change; memo dictionaries filled before are the caller's
+\* to discard, so the machine continues with an empty one
+Reassign ==
+  /\ ncalls < MaxCalls /\ ncalls > 0 /\ ver = 0          \* once per history, between two calls
+  /\ ver' = 1 /\ mk' = {} /\ mode' = <<"none", FALSE, FALSE>>
+  /\ UNCHANGED <<vs, E, ncalls>>
+  /\ last' = [a |-> "reassign", ver |-> 1 - ver]
+
+Next == \/ \E dir \in {"none", "start", "end"} : \E st \in vs : \E L \in 0..MaxLen : \E mx, ww \in BOOLEAN :
+             /\ (dir = "none" => st = Start)
+             /\ Call(dir, st, L, mx, ww)
+        \/ Reassign
 
 \* every key the memo may hold denotes the reference value for that key under the memo's mode
 MemoSound == \A k \in mk : k[1] \in 1..MaxLen /\ k[2] \in vs
 
 StateRec == [vs |-> vs, E |-> E, mk |-> mk, mode |-> mode]
-Emit == PrintT("EMIT " \o ToJson([from |-> [vs |-> vs, E |-> E, mk |-> mk, mode |-> mode, n |-> ncalls],
+Emit == PrintT("EMIT " \o ToJson([from |-> [vs |-> vs, E |-> E, mk |-> mk, mode |-> mode, n |-> ncalls, ver |-> ver],
                                     act |-> last',
-                                    to |-> [vs |-> vs', E |-> E', mk |-> mk', mode |-> mode', n |-> ncalls']]))
-View == <<vs, E, mk, mode, ncalls>>
+                                    to |-> [vs |-> vs', E |-> E', mk |-> mk', mode |-> mode', n |-> ncalls', ver |-> ver']]))
+View == <<vs, E, mk, mode, ncalls, ver>>
 
 \* exact images of every word over the labels, printed once
-EvalTable == {<<w, Eval(w)>> : w \in Ops!WordsUpTo(Labels, MaxLen)}
+EvalTable == {<<v, w, EvalV(v, w)>> : v \in {0, 1}, w \in Ops!WordsUpTo(Labels, MaxLen)}
 ASSUME PrintT("EVAL " \o ToJson(EvalTable))
 =============================================================================
